@@ -1533,14 +1533,29 @@ class _ProtoBuilder:
                     "Operation, but is missing a response type or "
                     "metadata type.",
                 )
-            response_key = service_address.resolve(op.response_type)
-            metadata_key = service_address.resolve(op.metadata_type)
+            response_key = self._resolve_lro_type(service_address, op.response_type)
+            metadata_key = self._resolve_lro_type(service_address, op.metadata_type)
             lro = wrappers.OperationInfo(
                 response_type=self.api_messages[response_key],
                 metadata_type=self.api_messages[metadata_key],
             )
 
         return lro
+
+    def _resolve_lro_type(self, service_address: metadata.Address, selector: str) -> str:
+        """Resolve a type name of `google.longrunning.operation_info`.
+
+        A name containing a dot is usually fully qualified, but it may also
+        name a nested message relative to the package of the rpc
+        (e.g. `Outer.Inner`); fall back to that reading when the name
+        as written is not a known message.
+        """
+        key = service_address.resolve(selector)
+        if key not in self.api_messages:
+            relative = f'{".".join(service_address.package)}.{selector}'
+            if relative in self.api_messages:
+                return relative
+        return key
 
     def _maybe_get_extended_lro(
         self,
